@@ -43,7 +43,9 @@ static START: OnceLock<Instant> = OnceLock::new();
 pub const WEDGE_LIMIT_MS: u64 = 20_000;
 
 fn mono_ms() -> u64 {
-    START.get_or_init(Instant::now).elapsed().as_millis() as u64
+    // real monotonic time: the watchdog must not be fooled by the virtual offset
+    let _ = START.get_or_init(Instant::now);
+    crate::shim::real_mono_ns() / 1_000_000
 }
 
 pub fn runs_done() -> u64 {
